@@ -21,3 +21,6 @@ pub use edge::{Edge, EdgeFlags, EdgeRecord};
 pub use node::{Node, NodeFlags, NodeRecord};
 pub use property::{CompareOp, PropertyStorage};
 pub use store::LpgStore;
+// verification builds only: lets a harness name the configuration type
+#[cfg(kani)]
+pub use store::LpgStoreConfig;
